@@ -77,7 +77,7 @@ func init() {
 		}
 		feats := Features(c, expr)
 		hdr := fmt.Sprintf("query: %s\nconstruct=%s position=%s window: start=%d end=%d step=%d\n", c.Query, c.Note, c.Mode, c.Start, c.End, c.Step)
-		tol := oracle.DefaultTol(Scale(c.Series))
+		tol := TolOf(c)
 
 		refSess := st.Session()
 		refSess.Shuffle = c.Shuffle // same storage order as the engine under test (ties in topk depend on it)
@@ -113,15 +113,15 @@ func init() {
 		resOn := Exec(ctx, qOn)
 		evals++
 		known := ""
-		if path == "native" {
-			kc := *c
-			kc.Prop = "C01"
-			known = kf.Match(&kc)
-		}
-		if known != "" {
-			feats = append(feats, "equality-not-judged:"+known)
-		} else if d := oracle.Equal(resOn, refRes, tol); d != "" {
-			if !((hasFeat(feats, "agg:topk") || hasFeat(feats, "agg:bottomk")) && resOn.Err == nil && refRes.Err == nil && TopkAmbiguous(c, expr, st)) {
+		if d := oracle.Equal(resOn, refRes, tol); d != "" {
+			if path == "native" {
+				kc := *c
+				kc.Prop = "C01"
+				known = kf.MatchAfterFailure(&kc)
+			}
+			if known != "" {
+				feats = append(feats, "equality-not-judged:"+known)
+			} else if !((hasFeat(feats, "agg:topk") || hasFeat(feats, "agg:bottomk")) && resOn.Err == nil && refRes.Err == nil && TopkAmbiguous(c, expr, st)) {
 				return violation("%swith fallback enabled (path %s) the answer differs from the reference: %s\nengine:    %s\nreference: %s\n", hdr, path, d, resOn, refRes)
 			}
 		}
